@@ -277,6 +277,12 @@ def t_inuse_closure(facts, res, tier):
     fors = [n for n in walk(rf["body"]) if n.get("k") == "for"]
     if not ok or not fors or not any("functions_call_tree" in expr_text(rf["body"]) for _ in [0]):
         res.fail(key, facts.where(rf), "function_is_actually_in_use does not follow every recorded callee (recursion must be guarded only by the visited test)")
+    # nothing ends the walk but the visited test: no `return`, `break` or `continue` in the function
+    key = "T-INUSE-CLOSURE:no-early-exit"
+    exits = [n for n in walk(rf["body"]) if n.get("k") in ("return", "break", "continue")]
+    res.inst(key, True, {"exits": len(exits)})
+    for n in exits:
+        res.fail(key, facts.where(rf, n), "function_is_actually_in_use leaves (`%s`) on something other than the visited test: the walk can stop before every reachable function is marked" % expr_text(n)[:40])
     key = "T-INUSE-CLOSURE:visited-insert"
     res.inst(key)
     inserts = [n for n in walk(rf["body"]) if n.get("k") == "mcall" and n["method"] == "insert"]
